@@ -118,22 +118,32 @@ def resolve (H : HashFam) (orc : Oracles) (ns did : String) : Option Json :=
         | none => none
     | _ => none
 
-/-- the initial state `ProcessOperation` puts into the DID it returns: the canonical form of the
-    request as `model.CreateRequest` reads it (members the struct does not know are gone) -/
-def initialStateOf (j : Json) : Option String :=
+/-- the request `ProcessOperation` puts into the DID it returns: the create request as
+    `model.CreateRequest` reads it (members the struct does not know are gone), with the length of
+    its canonical form -/
+def canonicalRequestOf (j : Json) : Option (Json × List Char) :=
   match Parser.decodeCreate j, (GoJson.topObject j).bind fun top => GoJson.str top "type" with
   | some c, some ty =>
-    (transformValue (createRequestJson ty c)).map fun canon => b64EncodeStr (bytesOfString (String.ofList canon))
+    let req := createRequestJson ty c
+    (transformValue req).map fun canon => (req, canon)
   | _, _ => none
 
-/-- `DocumentHandler.ProcessOperation` on request bytes (given as size and JSON reading) -/
+/-- `DocumentHandler.ProcessOperation` on request bytes (given as size and JSON reading): the
+    request as received has to be an acceptable create request, and so has its canonical form,
+    from which the result is computed -/
 def processOperation (H : HashFam) (orc : Oracles) (ns : String) (_text : Option (List Char)) (size : Nat) (req : Option Json) :
     Option Json :=
   match Parser.parse H defaultCfg orc ns size req, req with
   | some op, some j =>
     if op.type ≠ .create then none
-    else match initialStateOf j with
-      | some initial => createResponse H orc op.uniqueSuffix j size (unpublishedInfo ns op.uniqueSuffix initial)
+    else match canonicalRequestOf j with
+      | some (creq, canon) =>
+        let csize := utf8Len (String.ofList canon)
+        match Parser.parse H defaultCfg orc ns csize (some creq) with
+        | some cop =>
+          createResponse H orc cop.uniqueSuffix creq csize
+            (unpublishedInfo ns cop.uniqueSuffix (b64EncodeStr (bytesOfString (String.ofList canon))))
+        | none => none
       | none => none
   | _, _ => none
 
